@@ -225,6 +225,8 @@ def obligations(tier):
                 for a in (AREAS_QUICK if qk else AREAS_THOROUGH):
                     if qk and (H, W) == (3, 4) and (a[1] - a[0] + 1) * (a[3] - a[2] + 1) > 9:
                         continue  # 12-cell views on the 12-cell world: thorough tier
+                    if fname == 'raytracing' and H * W >= 16 and (a[1] - a[0] + 1) * (a[3] - a[2] + 1) > 12:
+                        continue
                     if area_ok(a, fname):
                         obs.append(Obligation(f'{kind}-{fname}-{H}x{W}-area{a}', mkf(fname, H, W, fixed=a), dict(kind=kind, function=fname, H=H, W=W, area=list(a))))
     for fname in DET:
